@@ -741,6 +741,7 @@ func main() {
 		nsh := 16
 		var hs histStats
 		complete := true
+		lt0 := time.Now()
 		var wg sync.WaitGroup
 		for sh := 0; sh < nsh; sh++ {
 			wg.Add(1)
@@ -792,7 +793,7 @@ func main() {
 		r.Transitions += hs.Events
 		r.TracesValidated += hs.Events
 		r.AddEval(hs.Events)
-		cov[fmt.Sprintf("depth%d_%s", lv.depth, lv.name)] = map[string]any{"set_size": len(lv.set), "histories_x_schedules": hs.Histories, "events": hs.Events, "complete": complete && !hs.Expired}
+		cov[fmt.Sprintf("depth%d_%s", lv.depth, lv.name)] = map[string]any{"set_size": len(lv.set), "histories_x_schedules": hs.Histories, "events": hs.Events, "complete": complete && !hs.Expired, "wall_s": time.Since(lt0).Seconds()}
 		if hs.Expired {
 			r.Cap(fmt.Sprintf("histories depth %d over %s set cut by the deadline", lv.depth, lv.name))
 		}
@@ -804,6 +805,7 @@ func main() {
 
 	// ---- phase 2: re-execution (one worker process; reference plans are fresh plans in the same process, which
 	// phase 1 has just shown to be history-independent)
+	rt0 := time.Now()
 	out, err := spawn(job{Mode: "reexec", Set: all})
 	if err != nil {
 		ev.Fatal("reexec worker: %v", err)
@@ -840,6 +842,7 @@ func main() {
 		ev.Fatal("%v", err)
 	}
 	r.Extra["reexec_cases"] = reCases
+	r.Extra["reexec_wall_s"] = time.Since(rt0).Seconds()
 	r.Extra["reexec_textual_differences_judged_same_meaning"] = benign
 	r.Extra["reexec_differences_executed_on_chsim"] = chsimVerdicts
 	r.Sample(map[string]any{"spec": all[1], "fresh_sql": base[all[1].Key()]})
